@@ -352,3 +352,23 @@ V("c03-twobody-cubed-dropped", "C03", "violation", "C03.R3", edits=[(TBF, "-1.0 
 V("c03-kepler-gdot", "C03", "violation", "C03.R3", edits=[(KPF, "    gdot = 1 - chi**2 / r * c2", "    gdot = 1 - chi**2 / norm(r0) * c2")])
 V("c03-kepler-check-removed", "C03", "violation", "C03.R3", edits=[(KPF, "    if not isclose(f * gdot - fdot * g, 1.0, rtol=0.0, atol=min(tol, 1e-6)):", "    if False and not isclose(f * gdot - fdot * g, 1.0, rtol=0.0, atol=min(tol, 1e-6)):")])
 V("c03-n-rename-loop-var", "C03", "pass", edits=[(TBF, "        for jj in range(step):\n            # Parse position vector\n            r_vector = state[jj : jj + half : step]", "        for kk in range(step):\n            jj = kk\n            # Parse position vector\n            r_vector = state[jj : jj + half : step]")])
+
+# ------------------------------------------------------------------------------------ C12
+CV = "physics/orbits/conversions.py"
+OU = "physics/orbits/utils.py"
+EL = "physics/orbits/elements.py"
+AN = "physics/orbits/anomaly.py"
+STC = "scenario/config/state_config.py"
+V("c12-eci2coe-equatorial-slot", "C12", "violation", "C12.R1", edits=[(CV, "        return sma, ecc, inc, 0.0, true_long_periapsis, true_anomaly", "        return sma, ecc, inc, true_long_periapsis, 0.0, true_anomaly")])
+V("c12-singularity-circular-drops-argp", "C12", "violation", "C12.R1", edits=[(OU, "        arg_lat = wrapAngle2Pi(anomaly + argp)", "        arg_lat = wrapAngle2Pi(anomaly)")])
+V("c12-singularity-unwrapped", "C12", "violation", "C12.R1", edits=[(OU, "        true_long_rp = wrapAngle2Pi(raan + argp)", "        true_long_rp = raan + argp")])
+V("c12-fromconfig-latitude-into-argp", "C12", "violation", "C12.R1", edits=[(EL, "            anomaly = config.argument_latitude * const.DEG2RAD", "            argp = config.argument_latitude * const.DEG2RAD")])
+V("c12-validate-flags-swapped", "C12", "violation", "C12.R1", edits=[(STC, "        elif self.true_anomaly is not None and self.true_longitude_periapsis is not None:\n            self._eccentric = True\n            self._inclined = False", "        elif self.true_anomaly is not None and self.true_longitude_periapsis is not None:\n            self._eccentric = False\n            self._inclined = True")])
+V("c12-inclined-property-returns-eccentric", "C12", "violation", "C12.R1", edits=[(STC, "        \"\"\"bool: Indicates whether this orbit is considered inclined.\"\"\"\n        return self._inclined", "        \"\"\"bool: Indicates whether this orbit is considered inclined.\"\"\"\n        return self._eccentric")])
+V("c12-deg2rad-dropped", "C12", "violation", "C12.R2", edits=[(EL, "            raan = config.right_ascension * const.DEG2RAD\n            argp = config.argument_periapsis * const.DEG2RAD", "            raan = config.right_ascension\n            argp = config.argument_periapsis * const.DEG2RAD")])
+V("c12-deg2rad-twice", "C12", "violation", "C12.R2", edits=[(EL, "        inc = config.inclination * const.DEG2RAD", "        inc = config.inclination * const.DEG2RAD * const.DEG2RAD")])
+V("c12-eqe-component-scaled", "C12", "violation", "C12.R2", edits=[(EL, "            config.h,\n            config.k,", "            config.h * const.DEG2RAD,\n            config.k,")])
+V("c12-anomaly-wrapper-lost", "C12", "violation", "C12.R3", edits=[(AN, "@wrap_anomaly\n@check_ecc\ndef eccAnom2MeanAnom", "@check_ecc\ndef eccAnom2MeanAnom")])
+V("c12-ecc2true-sign", "C12", "violation", "C12.R3", edits=[(AN, "    return arctan2(sin(E) * sqrt(1 - ecc**2), cos(E) - ecc)", "    return arctan2(sin(E) * sqrt(1 - ecc**2), cos(E) + ecc)")])
+V("c12-meanlong-retro-sign", "C12", "violation", "C12.R3", edits=[(AN, "    return meanAnom2TrueAnom(lam - argp - II * raan, ecc)", "    return meanAnom2TrueAnom(lam - argp + II * raan, ecc)")])
+V("c12-n-validate-reordered", "C12", "pass", edits=[(STC, "            self._eccentric = True\n            self._inclined = True\n\n        elif self.true_anomaly", "            self._inclined = True\n            self._eccentric = True\n\n        elif self.true_anomaly")])
